@@ -30,12 +30,13 @@ ASSUMPTIONS = [
     "class-based ContextDecorator without _recreate_cm re-uses one instance by documentation; only pairing and routing are judged there",
 ]
 PROBES = ("concurrent_overlap", "sequential_reuse", "body_raises", "suppressed", "cancel_in_body", "cancel_in_enter",
-          "cancel_in_exit", "class_based", "generator_based", "decorated_method", "clashing_keyword_names", "falsy_exception")
+          "cancel_in_exit", "class_based", "generator_based", "decorated_method", "clashing_keyword_names", "falsy_exception",
+          "ambient_exception", "enter_failed")
 
 
 def gen(ch):
     sc = type("Scn", (), {})()
-    sc.kind = ch.draw(2)  # 0 generator-based 1 class-based
+    sc.kind = ch.weighted([4, 3, 1])  # 0 generator-based 1 class-based 2 class-based with __aexit__ only (inherited __aenter__)
     sc.suppress = ch.chance(1, 3)
     sc.susp = [ch.draw(3) for _ in range(3)]  # enter, body, exit
     sc.ntasks = ch.between(1, 3)
@@ -55,10 +56,18 @@ def gen(ch):
     sc.exc_kind = ch.weighted([5, 1, 1, 1])
     # the one manager instance decorates two functions; each call goes to one of them
     sc.which = [[ch.draw(2) for _ in p] for p in sc.calls]
+    # the callers may be inside the handler of an unrelated exception while they call
+    sc.ambient = ch.chance(1, 4)
+    # entering the context fails for the n-th context created (None: never)
+    sc.enter_fails = ch.draw(4) if ch.chance(1, 6) else None
     return sc
 
 
 class BodyBase(BaseException):
+    pass
+
+
+class EnterFailed(Exception):
     pass
 
 
@@ -100,6 +109,8 @@ def execute(st, ctx):
             received.append((label, rest, mode, tuple(sorted(opts.items()))))
             log.append(("enter", k, sim.current.id))
             await pause(sc.susp[0], "enter")
+            if sc.enter_fails is not None and k == sc.enter_fails + 1:
+                raise EnterFailed("enter%d" % k)
             log.append(("entered", k, sim.current.id))
             try:
                 yield k
@@ -123,6 +134,8 @@ def execute(st, ctx):
                 k = counter[0]
                 log.append(("enter", k, sim.current.id))
                 await pause(sc.susp[0], "enter")
+                if sc.enter_fails is not None and k == sc.enter_fails + 1:
+                    raise EnterFailed("enter%d" % k)
                 log.append(("entered", k, sim.current.id))
                 return k
 
@@ -132,6 +145,9 @@ def execute(st, ctx):
                     await pause(sc.susp[2], "exit")
                 return bool(sc.suppress and isinstance(ev, Exception))
 
+        if sc.kind == 2:
+            # an exit-only context: entering is what the base class provides (it gives the manager itself)
+            del Manager.__aenter__
         decorator = Manager()
 
     raised = {}
@@ -193,6 +209,8 @@ def execute(st, ctx):
                 results[call_id] = ("ok", await bodies[sc.which[ti][n]](call_id, fails, **sc.extra))
             except (InjectedFault, StopAsyncIteration, BodyBase) as err:
                 results[call_id] = ("raised", err)
+            except EnterFailed as err:
+                results[call_id] = ("enter_failed", err)
             except Exception as err:
                 if sc.exc_kind != 2 or type(err) is not Exception:
                     raise
@@ -202,17 +220,25 @@ def execute(st, ctx):
                 raise
             log.append(("returned", call_id, sim.current.id))
 
-    tasks = [sim.spawn(caller(i, plan), "caller%d" % i) for i, plan in enumerate(sc.calls)]
+    async def caller_in_handler(ti, plan):
+        try:
+            raise LookupError("unrelated, being handled by the caller")
+        except LookupError:
+            await caller(ti, plan)
+
+    spawn = caller_in_handler if sc.ambient else caller
+    tasks = [sim.spawn(spawn(i, plan), "caller%d" % i) for i, plan in enumerate(sc.calls)]
     if sc.cancel is not None:
         sim.cancel_plan[tasks[sc.cancel].id] = 1 + st.faults.draw(8)
     run_sim(sim)
-    sig = ("generator" if sc.kind == 0 else "class", "suppress" if sc.suppress else "propagate")
+    sig = (("generator", "class", "class_exit_only")[sc.kind], "suppress" if sc.suppress else "propagate")
 
     def describe():
         return {"backend": sc.backend, "manager": sig[0], "suppress": sc.suppress, "decorated": "method" if sc.as_method else "function",
                 "keyword_arguments": sc.extra, "body_exception_tests_false": sc.falsy_exc,
                 "body_raises": ("injected fault", "StopAsyncIteration", "Exception", "BaseException subclass")[sc.exc_kind],
-                "which_of_two_decorated_functions": sc.which, "suspensions": sc.susp, "calls": sc.calls,
+                "which_of_two_decorated_functions": sc.which, "inside_handler_of_unrelated_exception": sc.ambient,
+                "entering_fails_for_context": sc.enter_fails, "suspensions": sc.susp, "calls": sc.calls,
                 "cancel": {"task": sc.cancel, "fired_at": sim.cancel_fired_at} if sc.cancel is not None else None,
                 "log": [repr(e[:4]) for e in log], "results": {repr(k): repr(v) for k, v in results.items()},
                 "interleaving": [(t >> 2, ("pause", "sleep", "lock_wait", "done")[t & 3]) for t in sim.trace][:120]}
@@ -247,11 +273,25 @@ def execute(st, ctx):
                 if res is None:
                     out.violate("C15.call_never_finished", sig, dict(describe(), call=call_id))
                     continue
+                entered = any(e[0] == "entered" for e in evs) or (sc.kind == 2 and "body" in kinds)
                 if cancelled:
-                    # whatever was entered must have been exited, with the cancellation
-                    if any(e[0] == "entered" for e in evs) and kinds.count("exit") != 1:
+                    # whatever was entered must have been exited, with the cancellation - and nothing else
+                    if entered and kinds.count("exit") != 1:
                         out.violate("C15.cancelled_call_not_exited", sig, dict(describe(), call=call_id))
+                    elif not entered and sc.kind != 2 and "exit" in kinds:
+                        out.violate("C15.exited_without_having_entered", sig + ("cancelled",), dict(describe(), call=call_id))
                     continue
+                if res[0] == "enter_failed":
+                    # entering failed: no body, no exit, the caller gets that failure
+                    if kinds != ["enter"]:
+                        out.violate("C15.exited_without_having_entered", sig + (",".join(kinds),), dict(describe(), call=call_id))
+                    continue
+                if sc.kind == 2:
+                    if kinds != ["body", "exit"]:
+                        out.violate("C15.not_enter_body_exit", sig + (",".join(kinds),), dict(describe(), call=call_id))
+                        continue
+                    kinds = ["enter"] + kinds
+                    evs = [("enter", None, None)] + list(evs)
                 if kinds != ["enter", "body", "exit"]:
                     out.violate("C15.not_enter_body_exit", sig + (",".join(kinds),), dict(describe(), call=call_id))
                     continue
@@ -304,6 +344,11 @@ def execute(st, ctx):
         if where in ("body", "enter", "exit"):
             out.probes["cancel_in_" + where] = 1
     out.probes["class_based" if sc.kind else "generator_based"] = 1
+    if sc.ambient:
+        out.probes["ambient_exception"] = 1
+    if any(r[0] == "enter_failed" for r in results.values()):
+        out.probes["enter_failed"] = 1
+        out.faults["enter_raises"] = 1
     if sc.as_method:
         out.probes["decorated_method"] = 1
     if sc.extra:
@@ -311,7 +356,7 @@ def execute(st, ctx):
     if sc.falsy_exc and any(f for p in sc.calls for f in p):
         out.probes["falsy_exception"] = 1
     out.nontrivial = overlap or any(len(p) >= 2 for p in sc.calls)
-    out.shape = (sc.backend, sc.kind, sc.suppress, sc.as_method, tuple(sorted(sc.extra)), sc.falsy_exc, sc.exc_kind,
+    out.shape = (sc.backend, sc.kind, sc.suppress, sc.ambient, sc.enter_fails, sc.as_method, tuple(sorted(sc.extra)), sc.falsy_exc, sc.exc_kind,
                  tuple(tuple(w) for w in sc.which), tuple(sc.susp), tuple(tuple(p) for p in sc.calls), sc.cancel, hash(tuple(sim.trace)))
     if ctx.want_sample:
         out.sample = describe()
